@@ -1062,6 +1062,13 @@ func RunSliceExpr(ctx *Task, expr *ast.SliceExpr) (any, ast.DType, *errchain.PlE
 	} else {
 		stepInt = 1
 	}
+	// a step beyond the length selects at most one element; clamping it keeps
+	// `i += stepInt` from overflowing
+	if stepInt > length {
+		stepInt = length + 1
+	} else if stepInt < -length {
+		stepInt = -length - 1
+	}
 
 	if start != nil {
 		if startT != ast.Int {
@@ -1122,6 +1129,9 @@ func RunSliceExpr(ctx *Task, expr *ast.SliceExpr) (any, ast.DType, *errchain.PlE
 			if endInt > length {
 				endInt = length
 			}
+			if endInt < startInt {
+				endInt = startInt
+			}
 			result := make([]any, 0, (endInt-startInt+stepInt-1)/stepInt)
 			for i := startInt; i < endInt; i += stepInt {
 				result = append(result, list[i])
@@ -1133,6 +1143,9 @@ func RunSliceExpr(ctx *Task, expr *ast.SliceExpr) (any, ast.DType, *errchain.PlE
 			}
 			if endInt < 0 {
 				endInt = -1
+			}
+			if startInt < endInt {
+				startInt = endInt
 			}
 			result := make([]any, 0, (startInt-endInt-stepInt-1)/(-stepInt))
 			for i := startInt; i > endInt; i += stepInt {
